@@ -9,6 +9,7 @@ package ctlog
 import (
 	"crawshaw.io/sqlite"
 	"context"
+	"sync"
 	"crypto/ecdsa"
 	"crypto/sha256"
 
@@ -126,3 +127,16 @@ func (l *Log) VerifPoolMuHeld() bool {
 	l.poolMu.Unlock()
 	return false
 }
+
+// VerifYield, when set, is called before every acquisition of poolMu (the
+// calls are inserted into a build-time copy of ctlog.go by tools/mkoverlay.py).
+var VerifYield func(mu *sync.Mutex)
+
+func verifYield(mu *sync.Mutex) {
+	if f := VerifYield; f != nil {
+		f(mu)
+	}
+}
+
+// VerifPoolMuAddr identifies the log a yield belongs to.
+func (l *Log) VerifPoolMuAddr() *sync.Mutex { return &l.poolMu }
